@@ -6,10 +6,10 @@ import Pi2.MM.VerifyThm
 `metamath_extract_slice.slice_database`) cuts the slice `sl` for the lemma `l` and the reference verifier
 (`Verify.lean`) accepts the proof of `l` in `db`, it accepts it in `sl`.
 
-The property is FALSE without the hypothesis `WellFormedDb.disjFirst` (a top-level `$d x y` that comes *after* an
-assertion mentioning `x` and `y`): the slicer moves all top-level `$d` to the front of the slice, which gives that
-assertion a disjoint-variable condition it does not have in the database
-(`SliceEx.slice_verifies_needs_disjFirst` in `SliceVerifyEx.lean`).
+History: for the slicer before the commits "keep a top-level $d statement at its place in a slice" and "keep an
+essential hypothesis stated outside a block in the slices of later lemmas" the property was FALSE (a top-level `$d x y`
+after an assertion over `x`, `y` was moved to the front of the slice; a top-level `$e` was dropped).  Both defects were
+found while proving this theorem; `SliceVerifyEx.lean` keeps the two databases as regression facts.
 -/
 namespace MM
 
@@ -40,86 +40,30 @@ def leafOk (V : List String) : MStmt → Bool
   | .prov _ ts _ => termsOk V ts
   | .block _ => true
 
-/-- a top-level `$d` comes before the statements that mention both of its variables -/
-def DisjBeforeUse (db : MDb) : Prop :=
-  ∀ pre vs post, db = pre ++ MStmt.disj vs :: post →
-    ∀ s ∈ pre, ∀ p ∈ disjPairs vs, ¬(p.1 ∈ stmtMvs s ∧ p.2 ∈ stmtMvs s)
-
-/-- decision procedure for `DisjBeforeUse` -/
-def disjBeforeUseB : List MStmt → List MStmt → Bool
-  | _, [] => true
-  | pre, s :: rest =>
-      (match s with
-       | .disj vs => pre.all fun s' => (disjPairs vs).all fun p =>
-            !((stmtMvs s').contains p.1 && (stmtMvs s').contains p.2)
-       | _ => true) && disjBeforeUseB (pre ++ [s]) rest
-
-theorem disjBeforeUseB_spec : ∀ (rest pre0 : List MStmt), disjBeforeUseB pre0 rest = true →
-    ∀ pre vs post, rest = pre ++ MStmt.disj vs :: post →
-      ∀ s ∈ pre0 ++ pre, ∀ p ∈ disjPairs vs, ¬(p.1 ∈ stmtMvs s ∧ p.2 ∈ stmtMvs s)
-  | [], _, _, pre, vs, post, e => by cases pre <;> cases e
-  | s :: rest, pre0, h, pre, vs, post, e => by
-      simp only [disjBeforeUseB, Bool.and_eq_true] at h
-      cases pre with
-      | nil =>
-        simp only [List.nil_append, List.cons.injEq] at e
-        obtain ⟨rfl, rfl⟩ := e
-        intro s' hs' p hp
-        simp only [List.append_nil] at hs'
-        have := List.all_eq_true.1 (List.all_eq_true.1 h.1 s' hs') p hp
-        simp only [Bool.not_eq_true', Bool.and_eq_false_iff] at this
-        rintro ⟨h1, h2⟩
-        rcases this with h3 | h3
-        · rw [List.contains_iff_mem.2 h1] at h3; cases h3
-        · rw [List.contains_iff_mem.2 h2] at h3; cases h3
-      | cons a pre' =>
-        simp only [List.cons_append, List.cons.injEq] at e
-        obtain ⟨e0, e⟩ := e
-        subst e0
-        intro s' hs'
-        have := disjBeforeUseB_spec rest (pre0 ++ [s]) h.2 pre' vs post e s'
-          (by simp only [List.append_assoc, List.singleton_append]; exact hs')
-        exact this
-
-theorem disjBeforeUse_of_decide {db : MDb} (h : disjBeforeUseB [] db = true) : DisjBeforeUse db := by
-  intro pre vs post e s hs
-  exact disjBeforeUseB_spec db [] h pre vs post e s (by simpa using hs)
-
-def isEssStmt : MStmt → Bool
-  | .ess _ _ => true
-  | _ => false
-
 /-- the hypotheses on the database -/
 structure WellFormedDb (db : MDb) : Prop where
   /-- labels are unique -/
   labels : (allLabelsL db).Nodup
   /-- `)` is not a label (the specification: labels are made of letters, digits, `-`, `_`, `.`) -/
   noParen : ")" ∉ allLabelsL db
-  /-- no `$e` outside of a block (the slicer ignores such a statement) -/
-  noTopEss : ∀ s ∈ db, isEssStmt s = false
   /-- the AST agrees with the `$v` declarations; constants and typecodes are not variables -/
   consistent : ∀ x ∈ flatL db, leafOk (dbVars db) x = true
   /-- the constants the slicer always declares are not variables of the database -/
   defaults : ∀ c ∈ defaultConstants, c ∉ dbVars db
-  /-- top-level `$d` statements come before the assertions they concern -/
-  disjFirst : DisjBeforeUse db
 
 /-- `WellFormedDb` as a program -/
 def wellFormedDbB (db : MDb) : Bool :=
-  decide (allLabelsL db).Nodup && !(allLabelsL db).contains ")" && db.all (fun s => !isEssStmt s) &&
-  (flatL db).all (leafOk (dbVars db)) && defaultConstants.all (fun c => !(dbVars db).contains c) &&
-  disjBeforeUseB [] db
+  decide (allLabelsL db).Nodup && !(allLabelsL db).contains ")" &&
+  (flatL db).all (leafOk (dbVars db)) && defaultConstants.all (fun c => !(dbVars db).contains c)
 
 theorem wellFormedDb_of_decide {db : MDb} (h : wellFormedDbB db = true) : WellFormedDb db := by
   simp only [wellFormedDbB, Bool.and_eq_true, decide_eq_true_eq, Bool.not_eq_true', List.all_eq_true] at h
-  obtain ⟨⟨⟨⟨⟨h1, h2⟩, h3⟩, h4⟩, h5⟩, h6⟩ := h
+  obtain ⟨⟨⟨h1, h2⟩, h4⟩, h5⟩ := h
   exact {
     labels := h1
     noParen := not_mem_of_contains_false h2
-    noTopEss := h3
     consistent := h4
-    defaults := fun c hc => not_mem_of_contains_false (h5 c hc)
-    disjFirst := disjBeforeUse_of_decide h6 }
+    defaults := fun c hc => not_mem_of_contains_false (h5 c hc) }
 
 /-! ## terms -/
 
@@ -359,18 +303,20 @@ theorem deconstructProvable_spec {s : MStmt} {ants : List MStmt} {c : MStmt}
 
 /-! ## what `slice_database` files under which key -/
 
-/-- the entry `sliceStep` adds to `cut_antecedents` for a top-level statement -/
-def cutVal (s : MStmt) : Option (String × MStmt) :=
+/-- the entry `sliceStep` adds to `cut_antecedents` for a top-level statement (key `none`: a `$d` statement) -/
+def cutVal (s : MStmt) : Option (Option String × MStmt) :=
   match s with
-  | .float l _ _ => some (l, s)
-  | .ax l _ => some (l, s)
-  | .prov l ts _ => some (l, .ax l ts)
+  | .disj _ => some (none, s)
+  | .float l _ _ => some (some l, s)
+  | .ess l _ => some (some l, s)
+  | .ax l _ => some (some l, s)
+  | .prov l ts _ => some (some l, .ax l ts)
   | .block _ =>
     match matchAxiom s with
-    | some (some (.ax l _)) => some (l, s)
+    | some (some (.ax l _)) => some (some l, s)
     | some none =>
       match deconstructProvable s with
-      | some (ants, .prov l ts _) => some (l, constructAxiom ants l ts)
+      | some (ants, .prov l ts _) => some (some l, constructAxiom ants l ts)
       | _ => none
     | _ => none
   | _ => none
@@ -380,57 +326,56 @@ def TopShape (s : MStmt) : Prop :=
   match s with
   | .const _ => True
   | .var _ => True
-  | .disj _ => True
-  | .ess _ _ => True
   | _ => (cutVal s).isSome
+
+/-- `cut_antecedents` after one more statement -/
+def cutAdd (cut : Cut) : Option (Option String × MStmt) → Cut
+  | some (some k, v) => dictSet cut k v
+  | some (none, v) => cut ++ [(none, v)]
+  | none => cut
 
 theorem sliceStep_cut {deps : List (String × List String)} {incl excl : List String} {st st' : SliceSt}
     {s : MStmt} (h : sliceStep deps incl excl st s = some st') :
-    st'.cut = (match cutVal s with | some kv => dictSet st.cut kv.1 kv.2 | none => st.cut) ∧
-    st'.disjoints = (match s with
-      | .disj vs => (st.disjoints ++ disjPairs vs).eraseDups
-      | _ => st.disjoints) ∧ TopShape s := by
+    st'.cut = cutAdd st.cut (cutVal s) ∧ TopShape s := by
   have tail : ∀ {l : String} {ts : List MTerm} {pf : List String} {ants : List MStmt},
       (do
         let out ← if incl.contains l && !excl.contains l then do
-            pure (st.out ++ [(l, ← supportingDb st.cut st.disjoints deps l ts pf ants)])
+            pure (st.out ++ [(l, ← supportingDb st.cut deps l ts pf ants)])
           else pure st.out
         pure { st with out := out, cut := dictSet st.cut l (constructAxiom ants l ts) }) = some st' →
-      st'.cut = dictSet st.cut l (constructAxiom ants l ts) ∧ st'.disjoints = st.disjoints := by
+      st'.cut = dictSet st.cut l (constructAxiom ants l ts) := by
     intro l ts pf ants h
     split at h
     · simp only [Option.bind_eq_bind, Option.bind_eq_some_iff, Option.pure_def] at h
       obtain ⟨sl, _, out, hout, h⟩ := h
-      injection h with h; subst h; exact ⟨rfl, rfl⟩
+      injection h with h; subst h; rfl
     · simp only [Option.bind_eq_bind, Option.bind_eq_some_iff, Option.pure_def] at h
       obtain ⟨out, hout, h⟩ := h
-      injection h with h; subst h; exact ⟨rfl, rfl⟩
+      injection h with h; subst h; rfl
   cases s with
-  | const cs => simp only [sliceStep] at h; injection h with h; subst h; exact ⟨rfl, rfl, trivial⟩
-  | var vs => simp only [sliceStep] at h; injection h with h; subst h; exact ⟨rfl, rfl, trivial⟩
-  | disj vs => simp only [sliceStep] at h; injection h with h; subst h; exact ⟨rfl, rfl, trivial⟩
-  | float l tc v => simp only [sliceStep] at h; injection h with h; subst h; exact ⟨rfl, rfl, rfl⟩
-  | ess l ts => simp [sliceStep, matchAxiom] at h; subst h; exact ⟨rfl, rfl, trivial⟩
-  | ax l ts => simp [sliceStep, matchAxiom] at h; subst h; exact ⟨rfl, rfl, rfl⟩
+  | const cs => simp only [sliceStep] at h; injection h with h; subst h; exact ⟨rfl, trivial⟩
+  | var vs => simp only [sliceStep] at h; injection h with h; subst h; exact ⟨rfl, trivial⟩
+  | disj vs => simp only [sliceStep] at h; injection h with h; subst h; exact ⟨rfl, rfl⟩
+  | float l tc v => simp only [sliceStep] at h; injection h with h; subst h; exact ⟨rfl, rfl⟩
+  | ess l ts => simp only [sliceStep] at h; injection h with h; subst h; exact ⟨rfl, rfl⟩
+  | ax l ts => simp [sliceStep, matchAxiom] at h; subst h; exact ⟨rfl, rfl⟩
   | prov l ts pf =>
     simp only [sliceStep, matchAxiom, Option.bind_eq_bind, Option.bind_some, deconstructProvable] at h
-    obtain ⟨h1, h2⟩ := tail h
-    exact ⟨by rw [h1]; rfl, h2, rfl⟩
+    exact ⟨by rw [tail h]; rfl, rfl⟩
   | block ss =>
     simp only [sliceStep, Option.bind_eq_bind, Option.bind_eq_some_iff] at h
     obtain ⟨m, hm, h⟩ := h
     split at h
     · next l' ts' =>
       injection h with h; subst h
-      exact ⟨by simp [cutVal, hm], rfl, by simp [TopShape, cutVal, hm]⟩
+      exact ⟨by simp [cutVal, hm, cutAdd], by simp [TopShape, cutVal, hm]⟩
     · cases h
     · simp only [Option.bind_eq_some_iff] at h
       obtain ⟨⟨ants, concl⟩, hd, h⟩ := h
       simp only at h
       split at h
       · next l' ts' pf' =>
-        obtain ⟨h1, h2⟩ := tail h
-        exact ⟨by rw [h1]; simp [cutVal, hm, hd], h2, by simp [TopShape, cutVal, hm, hd]⟩
+        exact ⟨by rw [tail h]; simp [cutVal, hm, hd, cutAdd], by simp [TopShape, cutVal, hm, hd]⟩
       · cases h
 
 /-- a lemma seen from a later lemma: an axiom -/
@@ -465,13 +410,29 @@ structure CutSpec (s : MStmt) (k : String) (v : MStmt) : Prop where
   run : ∀ (t : String) (st : VState), (∀ ts pf, MStmt.prov t ts pf ∉ flat s) →
     runStmt (some t) st s = runStmt (some t) st v
 
-theorem cutVal_spec {s : MStmt} {k : String} {v : MStmt} (h : cutVal s = some (k, v)) :
-    (∃ tc x, s = .float k tc x ∧ v = s) ∨ CutSpec s k v := by
+theorem cutVal_none_key {s v : MStmt} (h : cutVal s = some (none, v)) : ∃ vs, s = .disj vs ∧ v = s := by
+  cases s with
+  | disj vs =>
+    simp only [cutVal, Option.some.injEq, Prod.mk.injEq, true_and] at h
+    exact ⟨vs, rfl, h.symm⟩
+  | block ss =>
+    simp only [cutVal] at h
+    split at h
+    · simp at h
+    · split at h <;> simp at h
+    · simp at h
+  | _ => simp [cutVal] at h
+
+theorem cutVal_spec {s : MStmt} {k : String} {v : MStmt} (h : cutVal s = some (some k, v)) :
+    (∃ tc x, s = .float k tc x ∧ v = s) ∨ (∃ ts, s = .ess k ts ∧ v = s) ∨ CutSpec s k v := by
   cases s with
   | const cs => simp [cutVal] at h
   | var vs => simp [cutVal] at h
   | disj vs => simp [cutVal] at h
-  | ess l ts => simp [cutVal] at h
+  | ess l ts =>
+    simp only [cutVal, Option.some.injEq, Prod.mk.injEq] at h
+    obtain ⟨rfl, rfl⟩ := h
+    exact Or.inr (Or.inl ⟨ts, rfl, rfl⟩)
   | float l tc x =>
     simp only [cutVal, Option.some.injEq, Prod.mk.injEq] at h
     obtain ⟨rfl, rfl⟩ := h
@@ -479,12 +440,12 @@ theorem cutVal_spec {s : MStmt} {k : String} {v : MStmt} (h : cutVal s = some (k
   | ax l ts =>
     simp only [cutVal, Option.some.injEq, Prod.mk.injEq] at h
     obtain ⟨rfl, rfl⟩ := h
-    exact Or.inr ⟨trivial, by simp [flat, axLeaf], by simp [assertLabels, flat, assertLabel?], by simp [flat, axify],
-      fun _ _ _ => rfl⟩
+    exact Or.inr (Or.inr ⟨trivial, by simp [flat, axLeaf], by simp [assertLabels, flat, assertLabel?], by simp [flat, axify],
+      fun _ _ _ => rfl⟩)
   | prov l ts pf =>
     simp only [cutVal, Option.some.injEq, Prod.mk.injEq] at h
     obtain ⟨rfl, rfl⟩ := h
-    refine Or.inr ⟨trivial, by simp [flat, axLeaf], by simp [assertLabels, flat, assertLabel?], by simp [flat, axify], ?_⟩
+    refine Or.inr (Or.inr ⟨trivial, by simp [flat, axLeaf], by simp [assertLabels, flat, assertLabel?], by simp [flat, axify], ?_⟩)
     intro t st hne
     have : l ≠ t := by
       intro e; subst e; exact hne ts pf (by simp [flat])
@@ -497,7 +458,7 @@ theorem cutVal_spec {s : MStmt} {k : String} {v : MStmt} (h : cutVal s = some (k
       obtain ⟨rfl, rfl⟩ := h
       obtain ⟨h1, l', ts', e, h2⟩ := matchAxiom_block_spec hm
       injection e with e1 e2; subst e1 e2
-      refine Or.inr ⟨trivial, by simpa [flat] using h1, ?_, ?_, fun _ _ _ => rfl⟩
+      refine Or.inr (Or.inr ⟨trivial, by simpa [flat] using h1, ?_, ?_, fun _ _ _ => rfl⟩)
       · simp only [assertLabels, flat, List.mem_filterMap]
         exact ⟨_, h2, rfl⟩
       · simp only [flat]
@@ -522,7 +483,7 @@ theorem cutVal_spec {s : MStmt} {k : String} {v : MStmt} (h : cutVal s = some (k
         · cases hs
         injection hs with hs; subst hs
         have hfl := flatL_leaves hants
-        refine Or.inr ⟨?_, ?_, ?_, ?_, ?_⟩
+        refine Or.inr (Or.inr ⟨?_, ?_, ?_, ?_, ?_⟩)
         · unfold constructAxiom; by_cases he : ants.isEmpty = true
           · simp only [if_pos he]
           · simp only [if_neg he]
@@ -586,8 +547,9 @@ theorem allLabels_axify (l : List MStmt) : (l.map axify).filterMap stmtLabel? = 
     simp only [List.map_cons, List.filterMap_cons, ih]
     cases a <;> rfl
 
-theorem cutVal_key {s : MStmt} {k : String} {v : MStmt} (h : cutVal s = some (k, v)) : k ∈ allLabels s := by
-  rcases cutVal_spec h with ⟨tc, x, rfl, _⟩ | hc
+theorem cutVal_key {s : MStmt} {k : String} {v : MStmt} (h : cutVal s = some (some k, v)) : k ∈ allLabels s := by
+  rcases cutVal_spec h with ⟨tc, x, rfl, _⟩ | ⟨ts, rfl, _⟩ | hc
+  · simp [allLabels, flat, stmtLabel?]
   · simp [allLabels, flat, stmtLabel?]
   · have := assertLabels_sub_allLabels hc.key
     rw [allLabels, hc.flat_eq, allLabels_axify] at this
@@ -596,9 +558,8 @@ theorem cutVal_key {s : MStmt} {k : String} {v : MStmt} (h : cutVal s = some (k,
 /-! ## the run of the slicer -/
 
 /-- the slicer's state after the top-level statements `pre` -/
-structure Good (pre : List MStmt) (cut : List (String × MStmt)) (dj : List (String × String)) : Prop where
+structure Good (pre : List MStmt) (cut : Cut) : Prop where
   cut : cut = pre.filterMap cutVal
-  dj : ∀ p, p ∈ dj ↔ ∃ vs, MStmt.disj vs ∈ pre ∧ p ∈ disjPairs vs
   shape : ∀ s ∈ pre, TopShape s
 
 theorem mem_allLabelsL {l : String} {ss : List MStmt} : l ∈ allLabelsL ss ↔ ∃ s ∈ ss, l ∈ allLabels s := by
@@ -606,60 +567,48 @@ theorem mem_allLabelsL {l : String} {ss : List MStmt} : l ∈ allLabelsL ss ↔ 
   | nil => simp [allLabelsL, flatL]
   | cons a ss ih => rw [allLabelsL_cons, List.mem_append, ih]; simp
 
+theorem labelKeys_cut_sub {pre : List MStmt} {k : String} (h : k ∈ labelKeys (pre.filterMap cutVal)) :
+    k ∈ allLabelsL pre := by
+  obtain ⟨v, hm⟩ := mem_labelKeys.1 h
+  obtain ⟨s', hs', hcv⟩ := List.mem_filterMap.1 hm
+  exact mem_allLabelsL.2 ⟨s', hs', cutVal_key hcv⟩
+
 /-- where a slice comes from -/
 theorem slice_origin {db : MDb} {deps : List (String × List String)} {incl excl : List String}
     {out : List (String × MDb)} {l : String} {sl : MDb} (hnd : (allLabelsL db).Nodup)
     (h : sliceDatabase db deps incl excl = some out) (hmem : (l, sl) ∈ out) :
-    ∃ pre s post ants ts pf cut dj, db = pre ++ s :: post ∧
-      deconstructProvable s = some (ants, .prov l ts pf) ∧ Good pre cut dj ∧
-      supportingDb cut dj deps l ts pf ants = some sl := by
+    ∃ pre s post ants ts pf cut, db = pre ++ s :: post ∧
+      deconstructProvable s = some (ants, .prov l ts pf) ∧ Good pre cut ∧
+      supportingDb cut deps l ts pf ants = some sl := by
   obtain ⟨st, hP, e⟩ := sliceDatabase_inv
-    (fun pre st => Good pre st.cut st.disjoints ∧ ∀ l sl, (l, sl) ∈ st.out →
-      ∃ pre' s post' ants ts pf cut dj, pre = pre' ++ s :: post' ∧
-        deconstructProvable s = some (ants, .prov l ts pf) ∧ Good pre' cut dj ∧
-        supportingDb cut dj deps l ts pf ants = some sl)
-    ⟨⟨rfl, by intro p; simp, by intro s hs; cases hs⟩, by intro l sl hm; cases hm⟩
+    (fun pre st => Good pre st.cut ∧ ∀ l sl, (l, sl) ∈ st.out →
+      ∃ pre' s post' ants ts pf cut, pre = pre' ++ s :: post' ∧
+        deconstructProvable s = some (ants, .prov l ts pf) ∧ Good pre' cut ∧
+        supportingDb cut deps l ts pf ants = some sl)
+    ⟨⟨rfl, by intro s hs; cases hs⟩, by intro l sl hm; cases hm⟩
     (by
       intro pre s post st st' hdb ⟨hG, hO⟩ hs
-      obtain ⟨hcut, hdj, hshape⟩ := sliceStep_cut hs
+      obtain ⟨hcut, hshape⟩ := sliceStep_cut hs
       obtain ⟨_, hout⟩ := sliceStep_spec hs
-      have hG' : Good (pre ++ [s]) st'.cut st'.disjoints := by
-        refine ⟨?_, ?_, ?_⟩
+      have hG' : Good (pre ++ [s]) st'.cut := by
+        refine ⟨?_, ?_⟩
         · rw [hcut, List.filterMap_append]
           cases hcv : cutVal s with
-          | none => simp [hG.cut, hcv]
+          | none => simp [hG.cut, hcv, cutAdd]
           | some kv =>
-            obtain ⟨k, v⟩ := kv
+            obtain ⟨ko, v⟩ := kv
             simp only [List.filterMap_cons, hcv, List.filterMap_nil]
-            rw [dictSet_fresh, hG.cut]
-            intro hk
-            rw [hG.cut] at hk
-            obtain ⟨⟨k', v'⟩, hm, e⟩ := List.mem_map.1 hk
-            simp only at e; subst e
-            obtain ⟨s', hs', hcv'⟩ := List.mem_filterMap.1 hm
-            have h1 : k' ∈ allLabelsL pre := mem_allLabelsL.2 ⟨s', hs', cutVal_key hcv'⟩
-            have h2 : k' ∈ allLabels s := cutVal_key hcv
-            rw [hdb, allLabelsL_append, allLabelsL_cons, List.nodup_append] at hnd
-            exact hnd.2.2 k' h1 k' (List.mem_append_left _ h2) rfl
-        · intro p
-          rw [hdj]
-          cases s with
-          | disj vs =>
-            simp only [List.mem_eraseDups, List.mem_append, hG.dj p]
-            constructor
-            · rintro (⟨vs', hv, hp⟩ | hp)
-              · exact ⟨vs', Or.inl hv, hp⟩
-              · exact ⟨vs, Or.inr (by simp), hp⟩
-            · rintro ⟨vs', hv | hv, hp⟩
-              · exact Or.inl ⟨vs', hv, hp⟩
-              · simp only [List.mem_singleton, MStmt.disj.injEq] at hv; subst hv; exact Or.inr hp
-          | _ =>
-            simp only [hG.dj p, List.mem_append, List.mem_singleton]
-            constructor
-            · rintro ⟨vs', hv, hp⟩; exact ⟨vs', Or.inl hv, hp⟩
-            · rintro ⟨vs', hv | hv, hp⟩
-              · exact ⟨vs', hv, hp⟩
-              · cases hv
+            cases ko with
+            | none => simp [cutAdd, hG.cut]
+            | some k =>
+              simp only [cutAdd]
+              rw [dictSet_fresh, hG.cut]
+              intro hk
+              rw [hG.cut] at hk
+              have h1 : k ∈ allLabelsL pre := labelKeys_cut_sub hk
+              have h2 : k ∈ allLabels s := cutVal_key hcv
+              rw [hdb, allLabelsL_append, allLabelsL_cons, List.nodup_append] at hnd
+              exact hnd.2.2 k h1 k (List.mem_append_left _ h2) rfl
         · intro s' hs'
           rcases List.mem_append.1 hs' with hs' | hs'
           · exact hG.shape s' hs'
@@ -669,32 +618,22 @@ theorem slice_origin {db : MDb} {deps : List (String × List String)} {incl excl
       rcases hout with hout | ⟨l', ts, pf, ants, sl', hd, hsup, hout⟩
       · rw [hout] at hm
         obtain ⟨pre', s', post', r⟩ := hO l sl hm
-        obtain ⟨ants, ts, pf, cut, dj, e, r⟩ := r
-        exact ⟨pre', s', post' ++ [s], ants, ts, pf, cut, dj, by rw [e]; simp, r⟩
+        obtain ⟨ants, ts, pf, cut, e, r⟩ := r
+        exact ⟨pre', s', post' ++ [s], ants, ts, pf, cut, by rw [e]; simp, r⟩
       · rw [hout] at hm
         rcases List.mem_append.1 hm with hm | hm
         · obtain ⟨pre', s', post', r⟩ := hO l sl hm
-          obtain ⟨ants, ts, pf, cut, dj, e, r⟩ := r
-          exact ⟨pre', s', post' ++ [s], ants, ts, pf, cut, dj, by rw [e]; simp, r⟩
+          obtain ⟨ants, ts, pf, cut, e, r⟩ := r
+          exact ⟨pre', s', post' ++ [s], ants, ts, pf, cut, by rw [e]; simp, r⟩
         · simp only [List.mem_singleton, Prod.mk.injEq] at hm
           obtain ⟨rfl, rfl⟩ := hm
-          exact ⟨pre, s, [], ants, ts, pf, st.cut, st.disjoints, rfl, hd, hG, hsup⟩)
+          exact ⟨pre, s, [], ants, ts, pf, st.cut, rfl, hd, hG, hsup⟩)
     h
   subst e
-  obtain ⟨pre', s, post', ants, ts, pf, cut, dj, e, r⟩ := hP.2 l sl hmem
-  exact ⟨pre', s, post', ants, ts, pf, cut, dj, e, r⟩
+  obtain ⟨pre', s, post', ants, ts, pf, cut, e, r⟩ := hP.2 l sl hmem
+  exact ⟨pre', s, post', ants, ts, pf, cut, e, r⟩
 
 /-! ## the top level: the database prefix against the kept statements -/
-
-/-- `keptOf`'s filter -/
-def keepFn (needed mvs : List String) : String × MStmt → Option MStmt := fun (name, st) =>
-  if needed.contains name then some st else
-  match st with
-  | .float _ _ v => if mvs.contains v then some st else none
-  | _ => none
-
-theorem keptOf_eq (cut : List (String × MStmt)) (needed mvs : List String) :
-    keptOf cut needed mvs = cut.filterMap (keepFn needed mvs) := rfl
 
 /-- top-level `$a`, `$p`, `${ … $}` -/
 def IsCutShape : MStmt → Prop
@@ -703,149 +642,112 @@ def IsCutShape : MStmt → Prop
   | .block _ => True
   | _ => False
 
-theorem keepFn_needed {needed mvs : List String} {k : String} (v : MStmt) (hk : k ∈ needed) :
-    keepFn needed mvs (k, v) = some v := by
-  simp [keepFn, hk]
+theorem keepEntry_float_mvs {needed mvs : List String} {k : Option String} {l tc v : String} (hv : v ∈ mvs) :
+    keepEntry needed mvs (k, .float l tc v) = some (.float l tc v) := by
+  simp [keepEntry, hv]
 
-theorem keepFn_float_mvs {needed mvs : List String} {k l tc v : String} (hv : v ∈ mvs) :
-    keepFn needed mvs (k, .float l tc v) = some (.float l tc v) := by
-  by_cases hk : k ∈ needed <;> simp [keepFn, hk, hv]
+theorem keepEntry_float_none {needed mvs : List String} {k l tc v : String} (hk : k ∉ needed) (hv : v ∉ mvs) :
+    keepEntry needed mvs (some k, .float l tc v) = none := by
+  simp [keepEntry, nameNeeded, hk, hv]
 
-theorem keepFn_float_none {needed mvs : List String} {k l tc v : String} (hk : k ∉ needed) (hv : v ∉ mvs) :
-    keepFn needed mvs (k, .float l tc v) = none := by
-  simp [keepFn, hk, hv]
-
-theorem keepFn_other_none {needed mvs : List String} {k : String} {v : MStmt} (hk : k ∉ needed)
+theorem keepEntry_other_none {needed mvs : List String} {k : String} {v : MStmt} (hk : k ∉ needed)
     (hv : match v with | .ax .. => True | .block _ => True | _ => False) :
-    keepFn needed mvs (k, v) = none := by
-  cases v <;> first | exact hv.elim | simp [keepFn, hk]
+    keepEntry needed mvs (some k, v) = none := by
+  cases v <;> first | exact hv.elim | simp [keepEntry, nameNeeded, hk]
+
+theorem mem_disjPairs_iff {vs : List String} {p : String × String} :
+    p ∈ disjPairs vs ↔ p.1 < p.2 ∧ p.1 ∈ vs ∧ p.2 ∈ vs := by
+  simp only [disjPairs, List.mem_flatMap, List.mem_map, List.mem_filter, decide_eq_true_eq]
+  constructor
+  · rintro ⟨a, ha, b, ⟨hb, hab⟩, rfl⟩
+    exact ⟨hab, ha, hb⟩
+  · rintro ⟨h1, h2, h3⟩
+    exact ⟨p.1, h2, p.2, ⟨h3, h1⟩, rfl⟩
+
+theorem length_gt_one_of_mem {r : List String} {a b : String} (ha : a ∈ r) (hb : b ∈ r) (hab : a ≠ b) :
+    1 < r.length := by
+  match r, ha, hb with
+  | [x], ha, hb =>
+    simp only [List.mem_singleton] at ha hb
+    exact absurd (ha.trans hb.symm) hab
+  | _ :: _ :: _, _, _ => simp
 
 section Top
-variable (Vdb mvs C2 needed : List String) (D2 : List (String × String)) (t : String) (pre : List MStmt)
+variable (Vdb mvs C2 needed : List String) (t : String) (pre : List MStmt)
 
 /-- the kept statements that come from the top-level statements `p` -/
-def keptL (p : List MStmt) : List MStmt := (p.filterMap cutVal).filterMap (keepFn needed mvs)
+def keptL (p : List MStmt) : List MStmt := (p.filterMap cutVal).filterMap (keepEntry needed mvs)
 
 /-- what the top-level simulation needs to know about the database prefix and the slice's declarations -/
 structure TopHyp : Prop where
   kV : ∀ x ∈ mvs, x ∈ Vdb
   cV2 : ∀ x ∈ C2, x ∉ Vdb
-  noEss : ∀ l ts, MStmt.ess l ts ∉ pre
   shape : ∀ s ∈ pre, TopShape s
   const : ∀ cs, MStmt.const cs ∈ pre → ∀ c ∈ cs, c ∉ Vdb
   var : ∀ vs, MStmt.var vs ∈ pre → ∀ x ∈ vs, x ∈ Vdb
   float : ∀ l tc v, MStmt.float l tc v ∈ pre → (v ∈ mvs → tc ∈ C2) ∧ (l ∈ needed → v ∈ mvs)
-  cutOK : ∀ s ∈ pre, ∀ k v, cutVal s = some (k, v) → CutSpec s k v → k ∈ needed →
-    ∀ y ∈ flat v, LeafOK Vdb mvs C2 (stmtMvs s) t y
+  ess : ∀ l ts, MStmt.ess l ts ∈ pre → l ∈ needed ∧ LeafOK Vdb mvs C2 Vdb t (.ess l ts)
+  cutOK : ∀ s ∈ pre, ∀ k v, cutVal s = some (some k, v) → CutSpec s k v → k ∈ needed →
+    ∀ y ∈ flat v, LeafOK Vdb mvs C2 Vdb t y
   notTarget : ∀ s ∈ pre, ∀ ts pf, MStmt.prov t ts pf ∉ flat s
-  d2src : ∀ p ∈ D2, ∃ vs, MStmt.disj vs ∈ pre ∧ p ∈ disjPairs vs
-  d2all : ∀ vs, MStmt.disj vs ∈ pre → ∀ p ∈ disjPairs vs, p.1 ∈ mvs → p.2 ∈ mvs → p ∈ D2
-  dbu : ∀ done vs post, pre = done ++ MStmt.disj vs :: post →
-    ∀ s ∈ done, ∀ p ∈ disjPairs vs, ¬(p.1 ∈ stmtMvs s ∧ p.2 ∈ stmtMvs s)
 
 /-- database state `S1` after the top-level statements `done`, slice state `S2` after the kept ones among them -/
 structure TopRel (done : List MStmt) (S1 S2 : VState) : Prop where
   inv1 : VInv S1
   inv2 : VInv S2
-  e1 : S1.ctx.e = []
-  e2 : S2.ctx.e = []
-  vK : ∀ x, x ∈ S2.ctx.v ↔ x ∈ mvs
-  vV : ∀ x ∈ S1.ctx.v, x ∈ Vdb
-  cV : ∀ x ∈ S1.ctx.c, x ∉ Vdb
-  cC : ∀ x, x ∈ S2.ctx.c ↔ x ∈ C2
-  fF : S2.ctx.f = S1.ctx.f.filter fun f => mvs.contains f.2.2
+  ctx : CtxRel Vdb mvs C2 Vdb S1.ctx S2.ctx
   fT : ∀ f ∈ S2.ctx.f, f.2.1 ∈ C2
-  d2 : S2.ctx.d = D2
-  dDone : ∀ vs, MStmt.disj vs ∈ done → ∀ p ∈ disjPairs vs, p ∈ S1.ctx.d
-  dSrc : ∀ p ∈ S1.ctx.d, ∃ vs, MStmt.disj vs ∈ pre ∧ p ∈ disjPairs vs
   seen : ∀ x ∈ S2.seen, x ∈ S1.seen
   asserts : ∀ l a2, (l, a2) ∈ S2.asserts → ∃ a1, (l, a1) ∈ S1.asserts ∧ ASim Vdb mvs C2 a1 a2
-  reg : ∀ s ∈ done, ∀ k v, cutVal s = some (k, v) → k ∈ needed →
+  reg : ∀ s ∈ done, ∀ k v, cutVal s = some (some k, v) → k ∈ needed →
     (∃ e, (k, e) ∈ entries S2) ∧ ∀ x ∈ stmtMvs v, x ∈ S1.ctx.v
 
-variable {Vdb mvs C2 needed D2 t pre}
+variable {Vdb mvs C2 needed t pre}
 
-/-- inside the top-level statement `s`: the contexts are related -/
-theorem TopRel.ctxRel (H : TopHyp Vdb mvs C2 needed D2 t pre) {done : List MStmt} {S1 S2 : VState}
-    (R : TopRel Vdb mvs C2 needed D2 pre done S1 S2) {s : MStmt} {post : List MStmt}
-    (hpre : pre = done ++ s :: post) (hs : ∀ vs, s ≠ .disj vs) :
-    CtxRel Vdb mvs C2 (stmtMvs s) S1.ctx S2.ctx where
-  vK := R.vK
-  vV := R.vV
-  cV := R.cV
-  cC := R.cC
-  fF := R.fF
-  eE := by rw [R.e1, R.e2]
-  eM := by rw [R.e1]; intro e he; cases he
-  eV := by rw [R.e1]; intro e he; cases he
-  eT := by rw [R.e1]; intro e he; cases he
-  d21 := by
-    intro p hp h1 h2
-    rw [R.d2] at hp
-    obtain ⟨vs, hvs, hpv⟩ := H.d2src p hp
-    rw [hpre] at hvs
-    rcases List.mem_append.1 hvs with hvs | hvs
-    · exact R.dDone vs hvs p hpv
-    · rcases List.mem_cons.1 hvs with hvs | hvs
-      · exact absurd hvs.symm (hs vs)
-      · obtain ⟨a, b, e⟩ := List.append_of_mem hvs
-        have hpre' : pre = (done ++ s :: a) ++ MStmt.disj vs :: b := by rw [hpre, e]; simp
-        exact absurd ⟨h1, h2⟩ (H.dbu _ vs b hpre' s (by simp) p hpv)
-  d12 := by
-    intro p hp h1 h2
-    rw [R.d2]
-    obtain ⟨vs, hvs, hpv⟩ := R.dSrc p hp
-    exact H.d2all vs hvs p hpv h1 h2
-
-theorem keptL_single {s : MStmt} {kv : String × MStmt} (h : cutVal s = some kv) :
-    keptL mvs needed [s] = (keepFn needed mvs kv).toList := by
+theorem keptL_single {s : MStmt} {kv : Option String × MStmt} (h : cutVal s = some kv) :
+    keptL mvs needed [s] = (keepEntry needed mvs kv).toList := by
   simp only [keptL, List.filterMap_cons, h, List.filterMap_nil]
-  cases keepFn needed mvs kv <;> rfl
+  cases keepEntry needed mvs kv <;> rfl
 
 theorem keptL_cons (s : MStmt) (p : List MStmt) :
     keptL mvs needed (s :: p) = keptL mvs needed [s] ++ keptL mvs needed p := by
   simp only [keptL]
   rw [show s :: p = [s] ++ p from rfl, List.filterMap_append, List.filterMap_append]
 
-theorem entries_mono_of {S S' : VState} (hf : ∀ x ∈ S.ctx.f, x ∈ S'.ctx.f) (he : ∀ x ∈ S.ctx.e, x ∈ S'.ctx.e)
-    (ha : ∀ x ∈ S.asserts, x ∈ S'.asserts) : ∀ p ∈ entries S, p ∈ entries S' := by
-  intro p hp
-  rcases mem_entries.1 hp with ⟨f, hf', rfl⟩ | ⟨e, he', rfl⟩ | ⟨a, ha', rfl⟩
-  · exact mem_entries.2 (Or.inl ⟨f, hf f hf', rfl⟩)
-  · exact mem_entries.2 (Or.inr (Or.inl ⟨e, he e he', rfl⟩))
-  · exact mem_entries.2 (Or.inr (Or.inr ⟨a, ha a ha', rfl⟩))
-
 /-- a top-level `$a`, `$p` or block -/
-theorem top_step_cut (H : TopHyp Vdb mvs C2 needed D2 t pre) {done : List MStmt} {S1 S1m S2 : VState}
+theorem top_step_cut (H : TopHyp Vdb mvs C2 needed t pre) {done : List MStmt} {S1 S1m S2 : VState}
     {s : MStmt} {post : List MStmt} (hpre : pre = done ++ s :: post)
-    (R : TopRel Vdb mvs C2 needed D2 pre done S1 S2) (h : runStmt (some t) S1 s = .ok S1m)
-    (hnd : ∀ vs, s ≠ .disj vs)
+    (R : TopRel Vdb mvs C2 needed done S1 S2) (h : runStmt (some t) S1 s = .ok S1m)
     (hshape : IsCutShape s)
     (inv1m : VInv S1m) (mono1 : StMono S1 S1m) :
     ∃ S2m, runStmts (some t) S2 (keptL mvs needed [s]) = .ok S2m ∧
-      TopRel Vdb mvs C2 needed D2 pre (done ++ [s]) S1m S2m := by
+      TopRel Vdb mvs C2 needed (done ++ [s]) S1m S2m := by
   have hsm : s ∈ pre := by rw [hpre]; simp
   have hctx1 : S1m.ctx = S1.ctx := run_ctx_eq (by cases s <;> first | exact hshape.elim | trivial) h
   have hsome : (cutVal s).isSome = true := by
     cases s <;> first | exact hshape.elim | exact H.shape _ hsm
-  obtain ⟨⟨k, v⟩, hcv⟩ := Option.isSome_iff_exists.1 hsome
+  obtain ⟨⟨ko, v⟩, hcv⟩ := Option.isSome_iff_exists.1 hsome
+  obtain ⟨k, rfl⟩ : ∃ k, ko = some k := by
+    cases ko with
+    | some k => exact ⟨k, rfl⟩
+    | none =>
+      obtain ⟨vs, rfl, _⟩ := cutVal_none_key hcv
+      exact hshape.elim
   have hc : CutSpec s k v := by
-    rcases cutVal_spec hcv with ⟨tc, x, rfl, _⟩ | hc
+    rcases cutVal_spec hcv with ⟨tc, x, rfl, _⟩ | ⟨ts, rfl, _⟩ | hc
+    · exact hshape.elim
     · exact hshape.elim
     · exact hc
-  have hdone : ∀ vs, MStmt.disj vs ∈ done ++ [s] → ∀ p ∈ disjPairs vs, p ∈ S1m.ctx.d := by
-    intro vs hvs
-    rw [hctx1]
-    rcases List.mem_append.1 hvs with hvs | hvs
-    · exact R.dDone vs hvs
-    · simp only [List.mem_singleton] at hvs; exact absurd hvs.symm (hnd vs)
   by_cases hk : k ∈ needed
   · have hkept : keptL mvs needed [s] = [v] := by
-      rw [keptL_single hcv, keepFn_needed v hk]; rfl
+      rw [keptL_single hcv, keepEntry_needed hk (by
+        intro vs e
+        have := hc.vshape
+        rw [e] at this; exact this)]; rfl
     have hrun1 : runStmt (some t) S1 v = .ok S1m := by
       rw [← hc.run t S1 (H.notTarget s hsm)]; exact h
     obtain ⟨S2m, hrun2, res⟩ := sim_stmt H.kV H.cV2 t v S1 S1m S2 (H.cutOK s hsm k v hcv hc hk)
-      (R.ctxRel H hpre hnd) R.seen hrun1
+      R.ctx R.seen hrun1
     have hctx2 : S2m.ctx = S2.ctx := run_ctx_eq (by
       have := hc.vshape
       cases v <;> first | exact this.elim | trivial) hrun2
@@ -855,17 +757,8 @@ theorem top_step_cut (H : TopHyp Vdb mvs C2 needed D2 t pre) {done : List MStmt}
     exact {
       inv1 := inv1m
       inv2 := inv2m
-      e1 := by rw [hctx1]; exact R.e1
-      e2 := by rw [hctx2]; exact R.e2
-      vK := by rw [hctx2]; exact R.vK
-      vV := by rw [hctx1]; exact R.vV
-      cV := by rw [hctx1]; exact R.cV
-      cC := by rw [hctx2]; exact R.cC
-      fF := by rw [hctx1, hctx2]; exact R.fF
+      ctx := res.ctx
       fT := by rw [hctx2]; exact R.fT
-      d2 := by rw [hctx2]; exact R.d2
-      dDone := hdone
-      dSrc := by rw [hctx1]; exact R.dSrc
       seen := res.seen
       asserts := by
         intro l a2 hm
@@ -890,22 +783,13 @@ theorem top_step_cut (H : TopHyp Vdb mvs C2 needed D2 t pre) {done : List MStmt}
           simp only at e; subst e
           exact ⟨.a a2, mem_entries.2 (Or.inr (Or.inr ⟨(k', a2), by rw [en2]; exact List.mem_append_right _ hm, rfl⟩))⟩ }
   · have hkept : keptL mvs needed [s] = [] := by
-      rw [keptL_single hcv, keepFn_other_none hk hc.vshape]; rfl
+      rw [keptL_single hcv, keepEntry_other_none hk hc.vshape]; rfl
     refine ⟨S2, by rw [hkept]; rfl, ?_⟩
     exact {
       inv1 := inv1m
       inv2 := R.inv2
-      e1 := by rw [hctx1]; exact R.e1
-      e2 := R.e2
-      vK := R.vK
-      vV := by rw [hctx1]; exact R.vV
-      cV := by rw [hctx1]; exact R.cV
-      cC := R.cC
-      fF := by rw [hctx1]; exact R.fF
+      ctx := by rw [hctx1]; exact R.ctx
       fT := R.fT
-      d2 := R.d2
-      dDone := hdone
-      dSrc := by rw [hctx1]; exact R.dSrc
       seen := fun x hx => mono1.s x (R.seen x hx)
       asserts := by
         intro l a2 hm
@@ -923,36 +807,24 @@ theorem top_step_cut (H : TopHyp Vdb mvs C2 needed D2 t pre) {done : List MStmt}
           exact absurd hk' hk }
 
 /-- one top-level statement -/
-theorem top_step (H : TopHyp Vdb mvs C2 needed D2 t pre) {done : List MStmt} {S1 S1m S2 : VState}
+theorem top_step (H : TopHyp Vdb mvs C2 needed t pre) {done : List MStmt} {S1 S1m S2 : VState}
     {s : MStmt} {post : List MStmt} (hpre : pre = done ++ s :: post)
-    (R : TopRel Vdb mvs C2 needed D2 pre done S1 S2) (h : runStmt (some t) S1 s = .ok S1m) :
+    (R : TopRel Vdb mvs C2 needed done S1 S2) (h : runStmt (some t) S1 s = .ok S1m) :
     ∃ S2m, runStmts (some t) S2 (keptL mvs needed [s]) = .ok S2m ∧
-      TopRel Vdb mvs C2 needed D2 pre (done ++ [s]) S1m S2m := by
+      TopRel Vdb mvs C2 needed (done ++ [s]) S1m S2m := by
   have hsm : s ∈ pre := by rw [hpre]; simp
   obtain ⟨inv1m, mono1⟩ := runStmt_inv (some t) s S1 S1m h R.inv1
-  -- statements that are not filed in `cut`: nothing happens in the slice
-  have nokeep : cutVal s = none → S1m.ctx.e = [] → (∀ x ∈ S1m.ctx.v, x ∈ Vdb) → (∀ x ∈ S1m.ctx.c, x ∉ Vdb) →
-      S1m.ctx.f = S1.ctx.f → (∀ x ∈ S1.ctx.v, x ∈ S1m.ctx.v) →
-      (∀ vs, MStmt.disj vs ∈ done ++ [s] → ∀ p ∈ disjPairs vs, p ∈ S1m.ctx.d) →
-      (∀ p ∈ S1m.ctx.d, ∃ vs, MStmt.disj vs ∈ pre ∧ p ∈ disjPairs vs) →
+  -- `$c`, `$v`: nothing happens in the slice
+  have nokeep : cutVal s = none → CtxRel Vdb mvs C2 Vdb S1m.ctx S2.ctx → (∀ x ∈ S1.ctx.v, x ∈ S1m.ctx.v) →
       ∃ S2m, runStmts (some t) S2 (keptL mvs needed [s]) = .ok S2m ∧
-        TopRel Vdb mvs C2 needed D2 pre (done ++ [s]) S1m S2m := by
-    intro hcv he hv hc hf hvm hd hds
+        TopRel Vdb mvs C2 needed (done ++ [s]) S1m S2m := by
+    intro hcv hctx hvm
     refine ⟨S2, by simp [keptL, hcv, runStmts], ?_⟩
     exact {
       inv1 := inv1m
       inv2 := R.inv2
-      e1 := he
-      e2 := R.e2
-      vK := R.vK
-      vV := hv
-      cV := hc
-      cC := R.cC
-      fF := by rw [hf]; exact R.fF
+      ctx := hctx
       fT := R.fT
-      d2 := R.d2
-      dDone := hd
-      dSrc := hds
       seen := fun x hx => mono1.s x (R.seen x hx)
       asserts := by
         intro l a2 hm
@@ -968,42 +840,170 @@ theorem top_step (H : TopHyp Vdb mvs C2 needed D2 t pre) {done : List MStmt} {S1
   cases s with
   | const cs =>
     simp only [runStmt] at h; injection h with h; subst h
-    refine nokeep rfl R.e1 R.vV ?_ rfl (fun x hx => hx) ?_ R.dSrc
-    · intro x hx
-      rcases List.mem_append.1 hx with hx | hx
-      · exact R.cV x hx
-      · exact H.const cs hsm x hx
-    · intro vs hvs
-      rcases List.mem_append.1 hvs with hvs | hvs
-      · exact R.dDone vs hvs
-      · simp at hvs
+    refine nokeep rfl ?_ (fun x hx => hx)
+    exact { R.ctx with
+      cV := by
+        intro x hx
+        rcases List.mem_append.1 hx with hx | hx
+        · exact R.ctx.cV x hx
+        · exact H.const cs hsm x hx }
   | var vs =>
     simp only [runStmt] at h; injection h with h; subst h
-    refine nokeep rfl R.e1 ?_ R.cV rfl (fun x hx => List.mem_append_left _ hx) ?_ R.dSrc
-    · intro x hx
-      rcases List.mem_append.1 hx with hx | hx
-      · exact R.vV x hx
-      · exact H.var vs hsm x hx
-    · intro vs' hvs
-      rcases List.mem_append.1 hvs with hvs | hvs
-      · exact R.dDone vs' hvs
-      · simp at hvs
+    refine nokeep rfl ?_ (fun x hx => List.mem_append_left _ hx)
+    have hvs : ∀ x ∈ vs, x ∈ Vdb := H.var vs hsm
+    have key : ∀ e ∈ S1.ctx.e, varsOf (S1.ctx.v ++ vs) e.2 = varsOf S1.ctx.v e.2 := by
+      intro e he
+      unfold varsOf
+      apply List.filter_congr
+      intro x hx
+      by_cases h1 : x ∈ S1.ctx.v
+      · simp [h1]
+      · have h2 : x ∉ vs := by
+          intro hxv
+          apply h1
+          rcases R.ctx.eT e he x hx with hm | hm
+          · have : x ∈ varsOf S2.ctx.v e.2 := mem_varsOf.2 ⟨hx, (R.ctx.vK x).2 hm⟩
+            rw [← R.ctx.eV e he] at this
+            exact (mem_varsOf.1 this).2
+          · exact absurd (hvs x hxv) hm.2
+        simp [h1, h2]
+    exact { R.ctx with
+      vV := by
+        intro x hx
+        rcases List.mem_append.1 hx with hx | hx
+        · exact R.ctx.vV x hx
+        · exact hvs x hx
+      eM := by
+        intro e he x hx
+        rcases List.mem_append.1 (mem_varsOf.1 hx).2 with h1 | h1
+        · exact R.ctx.vV x h1
+        · exact hvs x h1
+      eV := by
+        intro e he
+        show varsOf (S1.ctx.v ++ vs) e.2 = _
+        rw [key e he]; exact R.ctx.eV e he }
   | disj vs =>
     simp only [runStmt] at h
     split at h
-    · injection h with h; subst h
-      refine nokeep rfl R.e1 R.vV R.cV rfl (fun x hx => hx) ?_ ?_
-      · intro vs' hvs p hp
-        rcases List.mem_append.1 hvs with hvs | hvs
-        · exact List.mem_append_left _ (R.dDone vs' hvs p hp)
-        · simp only [List.mem_singleton, MStmt.disj.injEq] at hvs; subst hvs
-          exact List.mem_append_right _ hp
-      · intro p hp
-        rcases List.mem_append.1 hp with hp | hp
-        · exact R.dSrc p hp
-        · exact ⟨vs, hsm, hp⟩
+    · next hchk =>
+      injection h with h; subst h
+      have hcvs : cutVal (.disj vs) = some (none, .disj vs) := rfl
+      have hsub : ∀ p ∈ disjPairs (vs.filter fun v => mvs.contains v), p ∈ disjPairs vs := by
+        intro p hp
+        obtain ⟨h1, h2, h3⟩ := mem_disjPairs_iff.1 hp
+        exact mem_disjPairs_iff.2 ⟨h1, (List.mem_filter.1 h2).1, (List.mem_filter.1 h3).1⟩
+      have hin : ∀ p ∈ disjPairs vs, p.1 ∈ mvs → p.2 ∈ mvs →
+          p ∈ disjPairs (vs.filter fun v => mvs.contains v) ∧ 1 < (vs.filter fun v => mvs.contains v).length := by
+        intro p hp h1 h2
+        obtain ⟨hlt, ha, hb⟩ := mem_disjPairs_iff.1 hp
+        have ha' : p.1 ∈ vs.filter fun v => mvs.contains v := List.mem_filter.2 ⟨ha, by simpa using h1⟩
+        have hb' : p.2 ∈ vs.filter fun v => mvs.contains v := List.mem_filter.2 ⟨hb, by simpa using h2⟩
+        refine ⟨mem_disjPairs_iff.2 ⟨hlt, ha', hb'⟩, length_gt_one_of_mem ha' hb' ?_⟩
+        intro e; rw [e] at hlt; exact absurd hlt (String.lt_irrefl _)
+      have regD : ∀ (S2m : VState), (∀ p ∈ entries S2, p ∈ entries S2m) →
+          ∀ s' ∈ done ++ [MStmt.disj vs], ∀ k v, cutVal s' = some (some k, v) → k ∈ needed →
+          (∃ e, (k, e) ∈ entries S2m) ∧ ∀ x ∈ stmtMvs v, x ∈ S1.ctx.v := by
+        intro S2m hmono s' hs' k v hcv' hk
+        rcases List.mem_append.1 hs' with hs' | hs'
+        · obtain ⟨⟨e, he⟩, h2⟩ := R.reg s' hs' k v hcv' hk
+          exact ⟨⟨e, hmono _ he⟩, h2⟩
+        · simp only [List.mem_singleton] at hs'; subst hs'
+          rw [hcvs] at hcv'; cases hcv'
+      by_cases hlen : 1 < (vs.filter fun v => mvs.contains v).length
+      · have hkept : keptL mvs needed [.disj vs] = [.disj (vs.filter fun v => mvs.contains v)] := by
+          rw [keptL_single hcvs, keepEntry_disj, if_pos hlen]; rfl
+        have hchk2 : ((vs.filter fun v => mvs.contains v).all fun t => S2.ctx.v.contains t) = true := by
+          rw [List.all_eq_true]; intro x hx
+          exact List.contains_iff_mem.2 ((R.ctx.vK x).2 (by simpa using (List.mem_filter.1 hx).2))
+        have hrun2 : runStmt (some t) S2 (.disj (vs.filter fun v => mvs.contains v)) = .ok
+            ⟨⟨S2.ctx.c, S2.ctx.v, S2.ctx.d ++ disjPairs (vs.filter fun v => mvs.contains v), S2.ctx.f, S2.ctx.e⟩,
+              S2.asserts, S2.seen⟩ := by
+          simp only [runStmt, if_pos hchk2]
+        obtain ⟨inv2m, mono2⟩ := runStmt_inv (some t) _ S2 _ hrun2 R.inv2
+        refine ⟨⟨⟨S2.ctx.c, S2.ctx.v, S2.ctx.d ++ disjPairs (vs.filter fun v => mvs.contains v), S2.ctx.f, S2.ctx.e⟩,
+              S2.asserts, S2.seen⟩, by rw [hkept]; simp only [runStmts, hrun2], ?_⟩
+        exact {
+          inv1 := inv1m
+          inv2 := inv2m
+          ctx := { R.ctx with
+            d21 := by
+              intro p hp h1 h2
+              rcases List.mem_append.1 hp with hp | hp
+              · exact List.mem_append_left _ (R.ctx.d21 p hp h1 h2)
+              · exact List.mem_append_right _ (hsub p hp)
+            d12 := by
+              intro p hp h1 h2
+              rcases List.mem_append.1 hp with hp | hp
+              · exact List.mem_append_left _ (R.ctx.d12 p hp h1 h2)
+              · exact List.mem_append_right _ (hin p hp h1 h2).1 }
+          fT := R.fT
+          seen := R.seen
+          asserts := R.asserts
+          reg := regD _ mono2.entries }
+      · have hkept : keptL mvs needed [.disj vs] = [] := by
+          rw [keptL_single hcvs, keepEntry_disj, if_neg hlen]; rfl
+        refine ⟨S2, by rw [hkept]; rfl, ?_⟩
+        exact {
+          inv1 := inv1m
+          inv2 := R.inv2
+          ctx := { R.ctx with
+            d21 := by
+              intro p hp h1 h2
+              exact List.mem_append_left _ (R.ctx.d21 p hp h1 h2)
+            d12 := by
+              intro p hp h1 h2
+              rcases List.mem_append.1 hp with hp | hp
+              · exact R.ctx.d12 p hp h1 h2
+              · exact absurd (hin p hp h1 h2).2 hlen }
+          fT := R.fT
+          seen := R.seen
+          asserts := R.asserts
+          reg := regD S2 (fun _ h => h) }
     · cases h
-  | ess l ts => exact absurd hsm (H.noEss l ts)
+  | ess l ts =>
+    obtain ⟨hln, hleaf⟩ := H.ess l ts hsm
+    have hcvs : cutVal (.ess l ts) = some (some l, .ess l ts) := rfl
+    have hkept : keptL mvs needed [.ess l ts] = [.ess l ts] := by
+      rw [keptL_single hcvs, keepEntry_needed hln (by intro vs e; cases e)]; rfl
+    obtain ⟨S2m, hrun2, res⟩ := sim_stmt H.kV H.cV2 t (.ess l ts) S1 S1m S2
+      (by intro y hy; simp only [flat, List.mem_singleton] at hy; subst hy; exact hleaf) R.ctx R.seen h
+    obtain ⟨inv2m, mono2⟩ := runStmt_inv (some t) _ S2 S2m hrun2 R.inv2
+    obtain ⟨n1, n2, en1, en2, _, k2, _⟩ := res.asserts
+    have hn2 : n2 = [] := by
+      have : assertLabels (.ess l ts) = [] := by simp [assertLabels, flat, assertLabel?]
+      rw [this] at k2; exact List.map_eq_nil_iff.1 k2
+    have he1 : (l, printTerms ts) ∈ S1m.ctx.e := by
+      simp only [runStmt] at h
+      split at h
+      · injection h with h; subst h; simp
+      · cases h
+    refine ⟨S2m, by rw [hkept]; simp only [runStmts, hrun2], ?_⟩
+    exact {
+      inv1 := inv1m
+      inv2 := inv2m
+      ctx := res.ctx
+      fT := by
+        intro f hf
+        rw [res.ctx.fF, res.f1, ← R.ctx.fF] at hf
+        exact R.fT f hf
+      seen := res.seen
+      asserts := by
+        intro l' a2 hm
+        rw [en2, hn2, List.append_nil] at hm
+        obtain ⟨a1, h1, h2⟩ := R.asserts l' a2 hm
+        exact ⟨a1, mono1.a _ h1, h2⟩
+      reg := by
+        intro s' hs' k v hcv' hk
+        rcases List.mem_append.1 hs' with hs' | hs'
+        · obtain ⟨⟨e, he⟩, h2⟩ := R.reg s' hs' k v hcv' hk
+          exact ⟨⟨e, mono2.entries _ he⟩, by rw [res.v1]; exact h2⟩
+        · simp only [List.mem_singleton] at hs'; subst hs'
+          rw [hcvs] at hcv'
+          simp only [Option.some.injEq, Prod.mk.injEq] at hcv'
+          obtain ⟨rfl, rfl⟩ := hcv'
+          refine ⟨⟨.e (printTerms ts), mem_entries.2 (Or.inr (Or.inl ⟨(l, printTerms ts), ?_, rfl⟩))⟩, ?_⟩
+          · rw [res.ctx.eE]; exact he1
+          · rw [res.v1]; exact res.mv }
   | float l tc v =>
     simp only [runStmt] at h
     split at h
@@ -1013,29 +1013,29 @@ theorem top_step (H : TopHyp Vdb mvs C2 needed D2 t pre) {done : List MStmt} {S1
       obtain ⟨⟨hchk, hv1⟩, hl1⟩ := hc
       have hl1' : l ∉ S1.seen := not_mem_of_contains_false hl1
       obtain ⟨hf1, hf2⟩ := H.float l tc v hsm
-      have hcvs : cutVal (.float l tc v) = some (l, .float l tc v) := rfl
+      have hcvs : cutVal (.float l tc v) = some (some l, .float l tc v) := rfl
       by_cases hvm : v ∈ mvs
       · -- the floating statement is kept
         have hkept : keptL mvs needed [.float l tc v] = [.float l tc v] := by
-          rw [keptL_single hcvs, keepFn_float_mvs hvm]; rfl
+          rw [keptL_single hcvs, keepEntry_float_mvs hvm]; rfl
         have htc : tc ∈ C2 := hf1 hvm
         have hchk2 : checkSymbols S2.ctx [tc, v] false = true := by
           rw [checkSymbols_iff]
-          refine ⟨⟨tc, [v], rfl, (R.cC tc).2 htc⟩, ?_⟩
+          refine ⟨⟨tc, [v], rfl, (R.ctx.cC tc).2 htc⟩, ?_⟩
           intro x hx
           simp only [List.mem_cons, List.not_mem_nil, or_false] at hx
           rcases hx with rfl | rfl
-          · have : x ∉ S2.ctx.v := fun hh => H.cV2 x htc (H.kV x ((R.vK x).1 hh))
-            exact ⟨fun hh => this hh.2, Or.inl ((R.cC x).2 htc), fun hh => by cases hh⟩
-          · have : x ∉ S2.ctx.c := fun hh => H.cV2 x ((R.cC x).1 hh) (H.kV x hvm)
-            exact ⟨fun hh => this hh.1, Or.inr ((R.vK x).2 hvm), fun hh => by cases hh⟩
+          · have : x ∉ S2.ctx.v := fun hh => H.cV2 x htc (H.kV x ((R.ctx.vK x).1 hh))
+            exact ⟨fun hh => this hh.2, Or.inl ((R.ctx.cC x).2 htc), fun hh => by cases hh⟩
+          · have : x ∉ S2.ctx.c := fun hh => H.cV2 x ((R.ctx.cC x).1 hh) (H.kV x hvm)
+            exact ⟨fun hh => this hh.1, Or.inr ((R.ctx.vK x).2 hvm), fun hh => by cases hh⟩
         have hl2 : S2.seen.contains l = false := by
           cases hb : S2.seen.contains l with
           | false => rfl
           | true => exact absurd (R.seen l (List.contains_iff_mem.1 hb)) hl1'
         have hrun2 : runStmt (some t) S2 (.float l tc v) = .ok
             ⟨⟨S2.ctx.c, S2.ctx.v, S2.ctx.d, S2.ctx.f ++ [(l, tc, v)], S2.ctx.e⟩, S2.asserts, S2.seen ++ [l]⟩ := by
-          simp only [runStmt, hchk2, List.contains_iff_mem.2 ((R.vK v).2 hvm), hl2]
+          simp only [runStmt, hchk2, List.contains_iff_mem.2 ((R.ctx.vK v).2 hvm), hl2]
           rfl
         obtain ⟨inv2m, mono2⟩ := runStmt_inv (some t) _ S2 _ hrun2 R.inv2
         refine ⟨⟨⟨S2.ctx.c, S2.ctx.v, S2.ctx.d, S2.ctx.f ++ [(l, tc, v)], S2.ctx.e⟩, S2.asserts, S2.seen ++ [l]⟩,
@@ -1043,28 +1043,16 @@ theorem top_step (H : TopHyp Vdb mvs C2 needed D2 t pre) {done : List MStmt} {S1
         exact {
           inv1 := inv1m
           inv2 := inv2m
-          e1 := R.e1
-          e2 := R.e2
-          vK := R.vK
-          vV := R.vV
-          cV := R.cV
-          cC := R.cC
-          fF := by
-            show S2.ctx.f ++ [(l, tc, v)] = (S1.ctx.f ++ [(l, tc, v)]).filter _
-            rw [List.filter_append, ← R.fF]
-            simp [hvm]
+          ctx := { R.ctx with
+            fF := by
+              show S2.ctx.f ++ [(l, tc, v)] = (S1.ctx.f ++ [(l, tc, v)]).filter _
+              rw [List.filter_append, ← R.ctx.fF]
+              simp [hvm] }
           fT := by
             intro f hf
             rcases List.mem_append.1 hf with hf | hf
             · exact R.fT f hf
             · simp only [List.mem_singleton] at hf; subst hf; exact htc
-          d2 := R.d2
-          dDone := by
-            intro vs hvs
-            rcases List.mem_append.1 hvs with hvs | hvs
-            · exact R.dDone vs hvs
-            · simp at hvs
-          dSrc := R.dSrc
           seen := by
             intro x hx
             rcases List.mem_append.1 hx with hx | hx
@@ -1087,29 +1075,17 @@ theorem top_step (H : TopHyp Vdb mvs C2 needed D2 t pre) {done : List MStmt} {S1
       · -- not kept
         have hln : l ∉ needed := fun hn => hvm (hf2 hn)
         have hkept : keptL mvs needed [.float l tc v] = [] := by
-          rw [keptL_single hcvs, keepFn_float_none hln hvm]; rfl
+          rw [keptL_single hcvs, keepEntry_float_none hln hvm]; rfl
         refine ⟨S2, by rw [hkept]; rfl, ?_⟩
         exact {
           inv1 := inv1m
           inv2 := R.inv2
-          e1 := R.e1
-          e2 := R.e2
-          vK := R.vK
-          vV := R.vV
-          cV := R.cV
-          cC := R.cC
-          fF := by
-            show S2.ctx.f = (S1.ctx.f ++ [(l, tc, v)]).filter _
-            rw [List.filter_append, ← R.fF]
-            simp [hvm]
+          ctx := { R.ctx with
+            fF := by
+              show S2.ctx.f = (S1.ctx.f ++ [(l, tc, v)]).filter _
+              rw [List.filter_append, ← R.ctx.fF]
+              simp [hvm] }
           fT := R.fT
-          d2 := R.d2
-          dDone := by
-            intro vs hvs
-            rcases List.mem_append.1 hvs with hvs | hvs
-            · exact R.dDone vs hvs
-            · simp at hvs
-          dSrc := R.dSrc
           seen := fun x hx => List.mem_append_left _ (R.seen x hx)
           asserts := R.asserts
           reg := by
@@ -1122,14 +1098,14 @@ theorem top_step (H : TopHyp Vdb mvs C2 needed D2 t pre) {done : List MStmt} {S1
               obtain ⟨rfl, rfl⟩ := hcv'
               exact absurd hk hln }
     · cases h
-  | ax l ts => exact top_step_cut H hpre R h (by intro vs e; cases e) trivial inv1m mono1
-  | prov l ts pf => exact top_step_cut H hpre R h (by intro vs e; cases e) trivial inv1m mono1
-  | block ss => exact top_step_cut H hpre R h (by intro vs e; cases e) trivial inv1m mono1
+  | ax l ts => exact top_step_cut H hpre R h trivial inv1m mono1
+  | prov l ts pf => exact top_step_cut H hpre R h trivial inv1m mono1
+  | block ss => exact top_step_cut H hpre R h trivial inv1m mono1
 
 /-- the whole prefix -/
-theorem top_sim (H : TopHyp Vdb mvs C2 needed D2 t pre) : ∀ (p done : List MStmt) (S1 S1' S2 : VState),
-    pre = done ++ p → TopRel Vdb mvs C2 needed D2 pre done S1 S2 → runStmts (some t) S1 p = .ok S1' →
-    ∃ S2', runStmts (some t) S2 (keptL mvs needed p) = .ok S2' ∧ TopRel Vdb mvs C2 needed D2 pre pre S1' S2'
+theorem top_sim (H : TopHyp Vdb mvs C2 needed t pre) : ∀ (p done : List MStmt) (S1 S1' S2 : VState),
+    pre = done ++ p → TopRel Vdb mvs C2 needed done S1 S2 → runStmts (some t) S1 p = .ok S1' →
+    ∃ S2', runStmts (some t) S2 (keptL mvs needed p) = .ok S2' ∧ TopRel Vdb mvs C2 needed pre S1' S2'
   | [], done, S1, S1', S2, hpre, R, h => by
       simp only [runStmts] at h; injection h with h; subst h
       simp only [List.append_nil] at hpre; subst hpre
@@ -1145,30 +1121,6 @@ theorem top_sim (H : TopHyp Vdb mvs C2 needed D2 t pre) : ∀ (p done : List MSt
         exact hr2'
       · cases h
       · cases h
-
-/-- after the prefix: the contexts are related, whatever the next statement is -/
-theorem TopRel.ctxRel_end (H : TopHyp Vdb mvs C2 needed D2 t pre) {S1 S2 : VState}
-    (R : TopRel Vdb mvs C2 needed D2 pre pre S1 S2) (M : List String) :
-    CtxRel Vdb mvs C2 M S1.ctx S2.ctx where
-  vK := R.vK
-  vV := R.vV
-  cV := R.cV
-  cC := R.cC
-  fF := R.fF
-  eE := by rw [R.e1, R.e2]
-  eM := by rw [R.e1]; intro e he; cases he
-  eV := by rw [R.e1]; intro e he; cases he
-  eT := by rw [R.e1]; intro e he; cases he
-  d21 := by
-    intro p hp _ _
-    rw [R.d2] at hp
-    obtain ⟨vs, hvs, hpv⟩ := H.d2src p hp
-    exact R.dDone vs hvs p hpv
-  d12 := by
-    intro p hp h1 h2
-    rw [R.d2]
-    obtain ⟨vs, hvs, hpv⟩ := R.dSrc p hp
-    exact H.d2all vs hvs p hpv h1 h2
 
 end Top
 
@@ -1306,21 +1258,6 @@ theorem leafOk_consts {V : List String} {y : MStmt} (h : leafOk V y = true) : 
   | prov l ts pf => exact (termsOk_spec V ts h).1
   | _ => intro x hx; cases hx
 
-theorem mem_disjPairs {vs : List String} {p : String × String} (h : p ∈ disjPairs vs) :
-    p.1 < p.2 ∧ p.1 ∈ vs ∧ p.2 ∈ vs := by
-  simp only [disjPairs, List.mem_flatMap, List.mem_map, List.mem_filter, decide_eq_true_eq] at h
-  obtain ⟨a, ha, b, ⟨hb, hab⟩, rfl⟩ := h
-  exact ⟨hab, ha, hb⟩
-
-theorem disjPairs_pair {a b : String} (hab : a < b) : disjPairs [a, b] = [(a, b)] := by
-  have h1 : ¬ a < a := by
-    intro h; exact absurd h (String.lt_irrefl a)
-  have h2 : ¬ b < b := by
-    intro h; exact absurd h (String.lt_irrefl b)
-  have h3 : ¬ b < a := by
-    intro h; exact absurd (String.lt_trans hab h) (String.lt_irrefl a)
-  simp [disjPairs, List.filter_cons, hab, h1, h2, h3]
-
 theorem mapM_mem_out {α β : Type} (f : α → Option β) : ∀ (l : List α) (ys : List β), l.mapM f = some ys →
     ∀ y ∈ ys, ∃ x ∈ l, f x = some y
   | [], ys, h, y, hy => by simp at h; subst h; cases hy
@@ -1334,8 +1271,8 @@ theorem mapM_mem_out {α β : Type} (f : α → Option β) : ∀ (l : List α) (
       · obtain ⟨x, hx, hfx⟩ := mapM_mem_out f l ys' hys' y hy
         exact ⟨x, List.mem_cons_of_mem _ hx, hfx⟩
 
-theorem nodup_cut_keys : ∀ (pre : List MStmt), (allLabelsL pre).Nodup → ((pre.filterMap cutVal).map (·.1)).Nodup
-  | [], _ => by simp
+theorem nodup_cut_keys : ∀ (pre : List MStmt), (allLabelsL pre).Nodup → (labelKeys (pre.filterMap cutVal)).Nodup
+  | [], _ => by simp [labelKeys]
   | s :: pre, h => by
       rw [allLabelsL_cons, List.nodup_append] at h
       have ih := nodup_cut_keys pre h.2.1
@@ -1343,31 +1280,14 @@ theorem nodup_cut_keys : ∀ (pre : List MStmt), (allLabelsL pre).Nodup → ((pr
       cases hcv : cutVal s with
       | none => exact ih
       | some kv =>
-        simp only [List.map_cons, List.nodup_cons]
-        refine ⟨?_, ih⟩
-        intro hk
-        obtain ⟨⟨k', v'⟩, hm, e⟩ := List.mem_map.1 hk
-        obtain ⟨s', hs', hcv'⟩ := List.mem_filterMap.1 hm
-        have h1 : kv.1 ∈ allLabels s := cutVal_key (k := kv.1) (v := kv.2) hcv
-        have h2 : k' ∈ allLabelsL pre := mem_allLabelsL.2 ⟨s', hs', cutVal_key hcv'⟩
-        simp only at e
-        exact h.2.2 kv.1 h1 k' h2 e.symm
-
-/-- a run of `$d` statements over active variables -/
-theorem run_disjs (tgt : Option String) : ∀ (ds : List MStmt) (st : VState),
-    (∀ s ∈ ds, ∃ a b, s = .disj [a, b] ∧ a ∈ st.ctx.v ∧ b ∈ st.ctx.v) →
-    runStmts tgt st ds = .ok ⟨⟨st.ctx.c, st.ctx.v,
-      st.ctx.d ++ ds.flatMap (fun s => match s with | .disj vs => disjPairs vs | _ => []), st.ctx.f, st.ctx.e⟩,
-      st.asserts, st.seen⟩
-  | [], st, _ => by simp [runStmts]
-  | s :: ds, st, h => by
-      obtain ⟨a, b, rfl, ha, hb⟩ := h s (by simp)
-      have : ([a, b].all fun t => st.ctx.v.contains t) = true := by
-        simp [ha, hb]
-      simp only [runStmts, runStmt, if_pos this]
-      rw [run_disjs tgt ds ⟨⟨st.ctx.c, st.ctx.v, st.ctx.d ++ disjPairs [a, b], st.ctx.f, st.ctx.e⟩, st.asserts, st.seen⟩
-        (fun s hs => h s (List.mem_cons_of_mem _ hs))]
-      simp [List.append_assoc]
+        obtain ⟨ko, v⟩ := kv
+        cases ko with
+        | none => simpa [labelKeys] using ih
+        | some k =>
+          simp only [labelKeys, List.filterMap_cons, List.nodup_cons]
+          refine ⟨?_, ih⟩
+          intro hk
+          exact h.2.2 k (cutVal_key hcv) k (labelKeys_cut_sub hk) rfl
 
 /-! ## the pieces of a slice -/
 
@@ -1389,13 +1309,13 @@ theorem flat_lemma_stmt {s : MStmt} {ants : List MStmt} {l : String} {ts : List 
   · simp [flat, flatL_append, hfl, flatL]
 
 /-- the entries of `cut_antecedents` the slice needs -/
-theorem needed_facts {pre : List MStmt} {cut : List (String × MStmt)} {dj : List (String × String)}
-    {needed : List String} {neededStmts : List MStmt} (hG : Good pre cut dj) (hnd : (allLabelsL pre).Nodup)
-    (hn : needed.mapM (fun l => cut.lookup l) = some neededStmts) :
-    (∀ k ∈ needed, ∃ n ∈ neededStmts, ∃ s' ∈ pre, cutVal s' = some (k, n)) ∧
-    (∀ n ∈ neededStmts, ∃ k ∈ needed, ∃ s' ∈ pre, cutVal s' = some (k, n)) ∧
-    (∀ s' ∈ pre, ∀ k v, cutVal s' = some (k, v) → k ∈ needed → v ∈ neededStmts) := by
-  have hsrc : ∀ k n, cut.lookup k = some n → ∃ s' ∈ pre, cutVal s' = some (k, n) := by
+theorem needed_facts {pre : List MStmt} {cut : Cut} {needed : List String} {neededStmts : List MStmt}
+    (hG : Good pre cut) (hnd : (allLabelsL pre).Nodup)
+    (hn : needed.mapM (fun l => cut.lookup (some l)) = some neededStmts) :
+    (∀ k ∈ needed, ∃ n ∈ neededStmts, ∃ s' ∈ pre, cutVal s' = some (some k, n)) ∧
+    (∀ n ∈ neededStmts, ∃ k ∈ needed, ∃ s' ∈ pre, cutVal s' = some (some k, n)) ∧
+    (∀ s' ∈ pre, ∀ k v, cutVal s' = some (some k, v) → k ∈ needed → v ∈ neededStmts) := by
+  have hsrc : ∀ k n, cut.lookup (some k) = some n → ∃ s' ∈ pre, cutVal s' = some (some k, n) := by
     intro k n h
     have := lookup_mem _ _ _ h
     rw [hG.cut] at this
@@ -1410,33 +1330,22 @@ theorem needed_facts {pre : List MStmt} {cut : List (String × MStmt)} {dj : Lis
     exact ⟨k, hk, hsrc k n h1⟩
   · intro s' hs' k v hcv hk
     obtain ⟨n, h1, h2⟩ := mapM_lookup_mem _ _ _ hn k hk
-    have hmem : (k, v) ∈ cut := by rw [hG.cut]; exact List.mem_filterMap.2 ⟨s', hs', hcv⟩
-    have hkeys : (cut.map (·.1)).Nodup := by rw [hG.cut]; exact nodup_cut_keys pre hnd
+    have hmem : (some k, v) ∈ cut := by rw [hG.cut]; exact List.mem_filterMap.2 ⟨s', hs', hcv⟩
+    have hkeys : (labelKeys cut).Nodup := by rw [hG.cut]; exact nodup_cut_keys pre hnd
     rw [lookup_of_nodup cut k v hkeys hmem] at h1
     injection h1 with h1; subst h1; exact h2
 
 /-- a non-block statement of a kept statement is one of the database (a `$p` turned into a `$a`) -/
 theorem kept_leaf {db : MDb} {s' : MStmt} {k : String} {v y : MStmt} (hs' : s' ∈ db)
-    (hcv : cutVal s' = some (k, v)) (hy : y ∈ flat v) : ∃ y' ∈ flatL db, y' ∈ flat s' ∧ y = axify y' := by
-  rcases cutVal_spec hcv with ⟨tc, x, rfl, rfl⟩ | hc
+    (hcv : cutVal s' = some (some k, v)) (hy : y ∈ flat v) : ∃ y' ∈ flatL db, y' ∈ flat s' ∧ y = axify y' := by
+  rcases cutVal_spec hcv with ⟨tc, x, rfl, rfl⟩ | ⟨ts, rfl, rfl⟩ | hc
   · simp only [flat, List.mem_singleton] at hy; subst hy
     exact ⟨.float k tc x, mem_flatL_of_mem hs' (by simp [flat]), by simp [flat], rfl⟩
+  · simp only [flat, List.mem_singleton] at hy; subst hy
+    exact ⟨.ess k ts, mem_flatL_of_mem hs' (by simp [flat]), by simp [flat], rfl⟩
   · rw [hc.flat_eq] at hy
     obtain ⟨y', hy', e⟩ := List.mem_map.1 hy
     exact ⟨y', mem_flatL_of_mem hs' hy', hy', e.symm⟩
-
-theorem stmtMvs_cutVal {s' : MStmt} {k : String} {v : MStmt} (hcv : cutVal s' = some (k, v)) :
-    ∀ x, x ∈ stmtMvs v ↔ x ∈ stmtMvs s' := by
-  intro x
-  rcases cutVal_spec hcv with ⟨tc, x', rfl, rfl⟩ | hc
-  · exact Iff.rfl
-  · rw [mem_stmtMvs_flat, mem_stmtMvs_flat, hc.flat_eq]
-    constructor
-    · rintro ⟨y, hy, hx⟩
-      obtain ⟨y', hy', rfl⟩ := List.mem_map.1 hy
-      exact ⟨y', hy', by rwa [leafMvs_axify] at hx⟩
-    · rintro ⟨y, hy, hx⟩
-      exact ⟨axify y, List.mem_map.2 ⟨y, hy, rfl⟩, by rwa [leafMvs_axify]⟩
 
 /-- `verifyProof` only depends on the entries of the labels the proof cites -/
 theorem verifyProof_sim {T : String → Prop} {look1 look2 : String → Option VEntry} {vars1 vars2 : List String}
@@ -1507,7 +1416,7 @@ theorem proofSteps_compressed {mand rest : List String} {steps : List PStep}
 
 section Main
 variable {db : MDb} {deps : List (String × List String)} {pre : List MStmt} {s : MStmt} {post ants : List MStmt}
-  {l : String} {ts : List MTerm} {pf : List String} {cut : List (String × MStmt)} {dj : List (String × String)}
+  {l : String} {ts : List MTerm} {pf : List String} {cut : Cut}
   {labels : List String} {neededStmts : List MStmt} {consts : List String}
 
 local notation "ALL" => (MStmt.prov l ts pf :: (ants ++ neededStmts))
@@ -1517,13 +1426,9 @@ local notation "CC" => sortDedup (defaultConstants ++ consts ++
   keptTypecodesOf cut (stmtsMvs (MStmt.prov l ts pf :: (ants ++ neededStmts))))
 local notation "VDB" => dbVars db
 
-/-- the `$d` pairs the slice declares at its top level -/
-def topPairs (ds : List MStmt) : List (String × String) :=
-  ds.flatMap fun s => match s with | .disj vs => disjPairs vs | _ => []
-
-variable (hwf : WellFormedDb db) (hdb : db = pre ++ s :: post) (hG : Good pre cut dj)
+variable (hwf : WellFormedDb db) (hdb : db = pre ++ s :: post) (hG : Good pre cut)
   (hdec : deconstructProvable s = some (ants, .prov l ts pf))
-  (hn : (neededOf cut deps labels).mapM (fun l => cut.lookup l) = some neededStmts)
+  (hn : (neededOf cut deps labels).mapM (fun l => cut.lookup (some l)) = some neededStmts)
   (hcs : stmtsConstants (.prov l ts pf :: (ants ++ neededStmts)) = some consts)
 include hwf hdb hG hdec hn hcs
 set_option linter.unusedSectionVars false
@@ -1560,7 +1465,8 @@ theorem mvs_sub_vdb : ∀ x ∈ MVS, x ∈ VDB := by
   obtain ⟨y, hy, hx⟩ := (mem_stmtMvs_flat st x).1 hx
   exact leafOk_mvs (all_leafOk hwf hdb hG hdec hn hcs st hst y hy) x hx
 
-theorem float_in_cut {l' tc v : String} (h : MStmt.float l' tc v ∈ pre) : (l', MStmt.float l' tc v) ∈ cut := by
+theorem float_in_cut {l' tc v : String} (h : MStmt.float l' tc v ∈ pre) :
+    (some l', MStmt.float l' tc v) ∈ cut := by
   rw [hG.cut]
   exact List.mem_filterMap.2 ⟨_, h, rfl⟩
 
@@ -1582,6 +1488,10 @@ theorem cc_not_vdb : ∀ x ∈ CC, x ∉ VDB := by
       · injection hx with hx; subst hx
         rw [hG.cut] at hm
         obtain ⟨s', hs', hcv⟩ := List.mem_filterMap.1 hm
+        obtain ⟨name', rfl⟩ : ∃ n, name = some n := by
+          cases name with
+          | some n => exact ⟨n, rfl⟩
+          | none => obtain ⟨vs, rfl, e⟩ := cutVal_none_key hcv; cases e
         obtain ⟨y', hy', _, e⟩ := kept_leaf (pre_sub_db hwf hdb hG hdec hn hcs s' hs') hcv
           (y := .float l' tc v) (by simp [flat])
         have := hwf.consistent _ hy'
@@ -1628,6 +1538,11 @@ theorem leafOK_of_all {M : List String} {st y : MStmt} (hst : st ∈ ALL) (hy : 
   | ax l' ts' => exact terms_of_all hwf hdb hG hdec hn hcs hst hy ⟨rfl, rfl, rfl⟩ hM
   | _ => exact hax.elim
 
+/-- the same with "the variables are variables of the database" for the last component -/
+theorem leafOK_vdb {st y : MStmt} (hst : st ∈ ALL) (hy : y ∈ flat st) (hax : axLeaf y) :
+    LeafOK VDB MVS CC VDB l y :=
+  leafOK_of_all hwf hdb hG hdec hn hcs hst hy hax (leafOk_mvs (all_leafOk hwf hdb hG hdec hn hcs st hst y hy))
+
 theorem lemma_label_mem : MStmt.prov l ts pf ∈ flat s := by
   rw [(flat_lemma_stmt hdec).1]; simp
 
@@ -1651,32 +1566,9 @@ theorem not_target_post : ∀ ts' pf', MStmt.prov l ts' pf' ∉ flatL post := by
   rw [List.nodup_append] at this
   exact this.2.2 l h2 l h1 rfl
 
-theorem mem_topPairs_disjStmts {mvs : List String} {p : String × String} :
-    p ∈ topPairs (disjStmtsOf dj mvs) ↔ p ∈ dj ∧ p.1 ∈ mvs ∧ p.2 ∈ mvs := by
-  have hlt : ∀ q ∈ dj, q.1 < q.2 := by
-    intro q hq
-    obtain ⟨vs, _, hv⟩ := (hG.dj q).1 hq
-    exact (mem_disjPairs hv).1
-  simp only [topPairs, disjStmtsOf, List.mem_flatMap, List.mem_map, List.mem_filter, Bool.and_eq_true,
-    List.contains_iff_mem]
-  constructor
-  · rintro ⟨st, ⟨⟨a, b⟩, ⟨hq, ha, hb⟩, rfl⟩, hp⟩
-    simp only at hp
-    rw [disjPairs_pair (hlt (a, b) hq), List.mem_singleton] at hp
-    subst hp
-    exact ⟨hq, ha, hb⟩
-  · rintro ⟨hq, ha, hb⟩
-    refine ⟨_, ⟨p, ⟨hq, ha, hb⟩, rfl⟩, ?_⟩
-    simp only
-    rw [disjPairs_pair (hlt p hq)]
-    simp
-
-theorem topHyp : TopHyp VDB MVS CC NEEDED (topPairs (disjStmtsOf dj MVS)) l pre where
+theorem topHyp : TopHyp VDB MVS CC NEEDED l pre where
   kV := mvs_sub_vdb hwf hdb hG hdec hn hcs
   cV2 := cc_not_vdb hwf hdb hG hdec hn hcs
-  noEss := fun l' ts' h => by
-    have := hwf.noTopEss _ (pre_sub_db hwf hdb hG hdec hn hcs _ h)
-    cases this
   shape := hG.shape
   const := by
     intro cs hc c hcc
@@ -1694,28 +1586,29 @@ theorem topHyp : TopHyp VDB MVS CC NEEDED (topPairs (disjStmtsOf dj MVS)) l pre 
       rw [mem_sortDedup]
       apply List.mem_append_right
       simp only [keptTypecodesOf, List.mem_filterMap]
-      exact ⟨(l', .float l' tc v), float_in_cut hwf hdb hG hdec hn hcs hf, by simp [hv]⟩
+      exact ⟨(some l', .float l' tc v), float_in_cut hwf hdb hG hdec hn hcs hf, by simp [hv]⟩
     · intro hl'
       have := (needed_facts hG (nodup_pre hwf hdb hG hdec hn hcs) hn).2.2 _ hf l' _ rfl hl'
       exact mem_stmtsMvs.2 ⟨.float l' tc v, by simp [this], by simp [stmtMvs]⟩
+  ess := by
+    intro l' ts' he
+    have hneeded : l' ∈ NEEDED := by
+      simp only [neededOf, List.mem_append]
+      right
+      simp only [topEssLabels, List.mem_filterMap]
+      refine ⟨(some l', .ess l' ts'), ?_, rfl⟩
+      rw [hG.cut]; exact List.mem_filterMap.2 ⟨_, he, rfl⟩
+    have hst : MStmt.ess l' ts' ∈ ALL := by
+      have := (needed_facts hG (nodup_pre hwf hdb hG hdec hn hcs) hn).2.2 _ he l' _ rfl hneeded
+      simp [this]
+    exact ⟨hneeded, leafOK_vdb hwf hdb hG hdec hn hcs hst (by simp [flat]) trivial⟩
   cutOK := by
     intro s' hs' k v hcv hc hk y hy
     have hv : v ∈ ALL := by
       have := (needed_facts hG (nodup_pre hwf hdb hG hdec hn hcs) hn).2.2 s' hs' k v hcv hk
       simp [this]
-    refine leafOK_of_all hwf hdb hG hdec hn hcs hv hy (hc.leaves y hy) ?_
-    intro x hx
-    exact (stmtMvs_cutVal hcv x).1 ((mem_stmtMvs_flat v x).2 ⟨y, hy, hx⟩)
+    exact leafOK_vdb hwf hdb hG hdec hn hcs hv hy (hc.leaves y hy)
   notTarget := not_target_pre hwf hdb hG hdec hn hcs
-  d2src := by
-    intro p hp
-    exact (hG.dj p).1 ((mem_topPairs_disjStmts hwf hdb hG hdec hn hcs).1 hp).1
-  d2all := by
-    intro vs hvs p hp h1 h2
-    exact (mem_topPairs_disjStmts hwf hdb hG hdec hn hcs).2 ⟨(hG.dj p).2 ⟨vs, hvs, hp⟩, h1, h2⟩
-  dbu := by
-    intro done vs post' e
-    exact hwf.disjFirst done vs (post' ++ s :: post) (by rw [hdb, e]; simp)
 
 /-- the slice's `$v` list -/
 def sliceVars (mvs : List String) : List String := if mvs.isEmpty then [] else sortDedup mvs
@@ -1731,53 +1624,37 @@ theorem mem_sliceVars {mvs : List String} {x : String} : x ∈ sliceVars mvs ↔
 
 omit hwf hdb hG hdec hn hcs in
 /-- the declarations at the head of a slice -/
-theorem slice_init_run (tgt : Option String) (C : List String) (mvs : List String) (dj : List (String × String)) :
-    runStmts tgt {} (.const C :: (varStmtOf mvs ++ disjStmtsOf dj mvs)) =
-      .ok ⟨⟨C, sliceVars mvs, topPairs (disjStmtsOf dj mvs), [], []⟩, [], []⟩ := by
-  have hd : ∀ st : VState, (∀ x, x ∈ mvs → x ∈ st.ctx.v) →
-      runStmts tgt st (disjStmtsOf dj mvs) = .ok ⟨⟨st.ctx.c, st.ctx.v,
-        st.ctx.d ++ topPairs (disjStmtsOf dj mvs), st.ctx.f, st.ctx.e⟩, st.asserts, st.seen⟩ := by
-    intro st hst
-    refine run_disjs tgt _ st ?_
-    intro s hs
-    obtain ⟨a, b, rfl, ha, hb⟩ := mem_disjStmtsOf hs
-    exact ⟨a, b, rfl, hst a ha, hst b hb⟩
+theorem slice_init_run (tgt : Option String) (C : List String) (mvs : List String) :
+    runStmts tgt {} (.const C :: varStmtOf mvs) = .ok ⟨⟨C, sliceVars mvs, [], [], []⟩, [], []⟩ := by
   simp only [runStmts, runStmt]
   unfold varStmtOf sliceVars
   split
-  · next h =>
-    have : mvs = [] := by simpa using h
-    subst this
-    simp only [List.nil_append]
-    rw [hd _ (by intro x hx; cases hx)]
-    simp
-  · simp only [List.cons_append, List.nil_append, runStmts, runStmt]
-    rw [hd _ (by intro x hx; exact mem_sortDedup.2 hx)]
-    simp
+  · simp [runStmts]
+  · simp [runStmts, runStmt]
 
 theorem topRel_init :
-    TopRel VDB MVS CC NEEDED (topPairs (disjStmtsOf dj MVS)) pre [] {}
-      ⟨⟨CC, sliceVars MVS, topPairs (disjStmtsOf dj MVS), [], []⟩, [], []⟩ where
+    TopRel VDB MVS CC NEEDED [] {} ⟨⟨CC, sliceVars MVS, [], [], []⟩, [], []⟩ where
   inv1 := inv_init
   inv2 := ⟨fun l e e' h => by simp [entries] at h, fun p hp => by simp [entries] at hp⟩
-  e1 := rfl
-  e2 := rfl
-  vK := fun x => mem_sliceVars
-  vV := by intro x hx; cases hx
-  cV := by intro x hx; cases hx
-  cC := fun x => Iff.rfl
-  fF := rfl
+  ctx := {
+    vK := fun x => mem_sliceVars
+    vV := by intro x hx; cases hx
+    cV := by intro x hx; cases hx
+    cC := fun x => Iff.rfl
+    fF := rfl
+    eE := rfl
+    eM := by intro e he; cases he
+    eV := by intro e he; cases he
+    eT := by intro e he; cases he
+    d21 := by intro p hp; cases hp
+    d12 := by intro p hp; cases hp }
   fT := by intro f hf; cases hf
-  d2 := rfl
-  dDone := by intro vs hvs; cases hvs
-  dSrc := by intro p hp; cases hp
   seen := by intro x hx; cases hx
   asserts := by intro l' a2 h; cases h
   reg := by intro s' hs'; cases hs'
 
-/-- the heart of the matter: the run of the verifier on the slice -/
 theorem slice_core (hl : proofLabels pf = some labels) (hrun : runStmts (some l) {} db = .done) :
-    runStmts (some l) {} (.const CC :: (varStmtOf MVS ++ disjStmtsOf dj MVS ++ keptOf cut NEEDED MVS ++
+    runStmts (some l) {} (.const CC :: (varStmtOf MVS ++ keptOf cut NEEDED MVS ++
       [.block (ants ++ [.prov l ts pf])])) = .done := by
   have H := topHyp hwf hdb hG hdec hn hcs
   have NF := needed_facts hG (nodup_pre hwf hdb hG hdec hn hcs) hn
@@ -1802,12 +1679,12 @@ theorem slice_core (hl : proofLabels pf = some labels) (hrun : runStmts (some l)
   | done =>
   -- the prefix of the slice
   obtain ⟨S2, hr2, R⟩ := top_sim H pre [] {} S1
-    ⟨⟨CC, sliceVars MVS, topPairs (disjStmtsOf dj MVS), [], []⟩, [], []⟩ (by simp)
+    ⟨⟨CC, sliceVars MVS, [], [], []⟩, [], []⟩ (by simp)
     (topRel_init hwf hdb hG hdec hn hcs) hpre
-  have hkept : keptOf cut NEEDED MVS = keptL MVS NEEDED pre := by rw [keptOf_eq, hG.cut]; rfl
-  have hsplit : (MStmt.const CC :: (varStmtOf MVS ++ disjStmtsOf dj MVS ++ keptOf cut NEEDED MVS ++
+  have hkept : keptOf cut NEEDED MVS = keptL MVS NEEDED pre := by rw [hG.cut]; rfl
+  have hsplit : (MStmt.const CC :: (varStmtOf MVS ++ keptOf cut NEEDED MVS ++
       [.block (ants ++ [.prov l ts pf])])) =
-      (MStmt.const CC :: (varStmtOf MVS ++ disjStmtsOf dj MVS)) ++
+      (MStmt.const CC :: varStmtOf MVS) ++
         (keptL MVS NEEDED pre ++ [.block (ants ++ [.prov l ts pf])]) := by
     rw [hkept]; simp
   rw [hsplit, runStmts_append, slice_init_run]
@@ -1835,15 +1712,13 @@ theorem slice_core (hl : proofLabels pf = some labels) (hrun : runStmts (some l)
         | fail => rw [hp] at hs; cases hs
   obtain ⟨S1a, ha, hp⟩ := hclaim
   obtain ⟨inv1a, mono1a⟩ := runStmts_inv (some l) ants S1 S1a ha R.inv1
-  have hleaf : ∀ y ∈ flatL ants, LeafOK VDB MVS CC (stmtMvs s) l y := by
+  have hleaf : ∀ y ∈ flatL ants, LeafOK VDB MVS CC VDB l y := by
     rw [hfl]; intro y hy
     have hfy : flat y = [y] := by
       rcases hants y hy with ⟨vs, rfl⟩ | ⟨l', ts', rfl⟩ <;> rfl
-    refine leafOK_of_all hwf hdb hG hdec hn hcs (st := y) (by simp [hy]) (by rw [hfy]; simp) ?_ ?_
-    · rcases hants y hy with ⟨vs, rfl⟩ | ⟨l', ts', rfl⟩ <;> trivial
-    · intro x hx
-      exact (mem_stmtMvs_flat s x).2 ⟨y, by rw [hflat]; simp [hy], hx⟩
-  obtain ⟨S2a, hr2a, res⟩ := sim_stmts H.kV H.cV2 l ants S1 S1a S2 hleaf (R.ctxRel_end H (stmtMvs s)) R.seen ha
+    refine leafOK_vdb hwf hdb hG hdec hn hcs (st := y) (by simp [hy]) (by rw [hfy]; simp) ?_
+    rcases hants y hy with ⟨vs, rfl⟩ | ⟨l', ts', rfl⟩ <;> trivial
+  obtain ⟨S2a, hr2a, res⟩ := sim_stmts H.kV H.cV2 l ants S1 S1a S2 hleaf R.ctx R.seen ha
   obtain ⟨inv2a, mono2a⟩ := runStmts_inv (some l) ants S2 S2a hr2a R.inv2
   have hal : assertLabelsL ants = [] := by
     simp only [assertLabelsL, hfl]
@@ -1856,9 +1731,9 @@ theorem slice_core (hl : proofLabels pf = some labels) (hrun : runStmts (some l)
   -- the `$p` statement on the database side
   obtain ⟨⟨hchk, hfresh⟩, hvp⟩ := run_prov_target.1 hp
   have hfresh1 : l ∉ S1a.seen := not_mem_of_contains_false hfresh
-  obtain ⟨⟨hg, hM⟩, hmvs⟩ := terms_of_all hwf hdb hG hdec hn hcs (M := stmtMvs s)
+  obtain ⟨⟨hg, hM⟩, hmvs⟩ := terms_of_all hwf hdb hG hdec hn hcs (M := VDB)
     (st := .prov l ts pf) (y := .prov l ts pf) (ts' := ts) (by simp) (by simp [flat]) ⟨rfl, rfl, rfl⟩
-    (by intro x hx; exact (mem_stmtMvs_flat s x).2 ⟨.prov l ts pf, by rw [hflat]; simp, hx⟩)
+    (leafOk_mvs (all_leafOk hwf hdb hG hdec hn hcs (.prov l ts pf) (by simp) (.prov l ts pf) (by simp [flat])))
   have hchk2 := check_rel H.kV H.cV2 res.ctx hg hchk
   have hfresh2 : S2a.seen.contains l = false := by
     cases hb : S2a.seen.contains l with
@@ -1884,7 +1759,7 @@ theorem slice_core (hl : proofLabels pf = some labels) (hrun : runStmts (some l)
     · exact hx
     · exact absurd (res.ctx.vV x hv) hx.2
   -- entries of the slice are entries of the database
-  have hf2 : S2a.ctx.f = S2.ctx.f := by rw [res.ctx.fF, res.f1, ← R.fF]
+  have hf2 : S2a.ctx.f = S2.ctx.f := by rw [res.ctx.fF, res.f1, ← R.ctx.fF]
   have hentry : ∀ l' e2, (l', e2) ∈ entries S2a →
       ∃ e1, (l', e1) ∈ entries S1a ∧ EntrySim (TokGood VDB MVS CC) e1 e2 := by
     intro l' e2 hm
@@ -1975,7 +1850,7 @@ theorem slice_verifies {db : MDb} {deps : List (String × List String)} {incl ex
     {out : List (String × MDb)} {l : String} {sl : MDb} (hwf : WellFormedDb db)
     (h : sliceDatabase db deps incl excl = some out) (hm : (l, sl) ∈ out)
     (hv : verifyLemma db l = true) : verifyLemma sl l = true := by
-  obtain ⟨pre, s, post, ants, ts, pf, cut, dj, hdb, hdec, hG, hsup⟩ := slice_origin hwf.labels h hm
+  obtain ⟨pre, s, post, ants, ts, pf, cut, hdb, hdec, hG, hsup⟩ := slice_origin hwf.labels h hm
   obtain ⟨labels, neededStmts, consts, hl, hn, hcs, hsl⟩ := slice_shape hsup
   have hrun : runStmts (some l) {} db = .done := by
     unfold verifyLemma at hv
@@ -1992,7 +1867,7 @@ theorem slice_verifies_of_verifyDb {db : MDb} {deps : List (String × List Strin
     (h : sliceDatabase db deps incl excl = some out) (hm : (l, sl) ∈ out)
     (hv : verifyDb db = true) : verifyLemma sl l = true := by
   refine slice_verifies hwf h hm (verifyLemma_of_verifyDb hv ?_)
-  obtain ⟨pre, s, post, ants, ts, pf, cut, dj, hdb, hdec, _, _⟩ := slice_origin hwf.labels h hm
+  obtain ⟨pre, s, post, ants, ts, pf, cut, hdb, hdec, _, _⟩ := slice_origin hwf.labels h hm
   refine ⟨ts, pf, mem_flatL_of_mem (s := s) (by rw [hdb]; simp) ?_⟩
   rw [(flat_lemma_stmt hdec).1]; simp
 
